@@ -91,3 +91,53 @@ def run(prog, roots, units, rule="R-FULLSCAN", floor=3):
     res.counts["emission_loops"] = nloops
     res.floor("emission loops", nloops, floor)
     return res
+
+
+def run_rowfilter(prog, fn="mpq_ILLwrite_mps", rule="R-ROWFILTER"):
+    """The MPS writer leaves empty rows out of the ROWS section (the reader could not tell them from the objective).  Every other
+    record that names a row - RHS, RANGES - must therefore be written under the same emptiness test, otherwise the file refers to a
+    row it never declared and the reader rejects the writer's own output.  Decided by dominance: every emission whose arguments
+    contain rownames[...] is dominated by a condition that reads the row-length array (ILLlp_rows::rowcnt)."""
+    from ..core import dominators, apath, fields_of
+    res = RuleResult(rule, "every record of the MPS writer that names a row is emitted under a test of that row's length (the test that "
+                           "decides whether the row is declared in ROWS)")
+    f = prog.require_fn(fn)
+    dom, succ = dominators(prog, f)
+    tests = set()
+    for bid in f.live:
+        c = f.blocks[bid].get("c")
+        if c is None:
+            continue
+        for nd in walk(c):
+            if nd[0] == "i":
+                fl = fields_of(apath(nd[1])[2])
+                if fl and fl[-1].endswith("ILLlp_rows::rowcnt"):
+                    tests.add(bid)
+    n = 0
+    for b, i, c in f.calls():
+        if (callee(c) or "") not in PRINTERS and c[1] not in PRINTERS:
+            continue
+        names_row = False
+        for a in c[3]:
+            for nd in walk(a):
+                if nd[0] == "i" and is_var(strip(nd[1])) and "rownames" in strip(nd[1])[2]:
+                    names_row = True
+                elif nd[0] == "i":
+                    fl = fields_of(apath(nd[1])[2])
+                    if fl and fl[-1].endswith("::rownames"):
+                        names_row = True
+        if not names_row:
+            continue
+        n += 1
+        res.obligations += 1
+        res.nontrivial += 1
+        if tests & dom.get(b["id"], set()):
+            res.sample({"site": "%s: %s" % (short_loc(c[4]), show(c)[:60]), "verdict": "dominated by a test of the row's length"}, limit=6)
+        else:
+            res.violations.append(Violation(rule, "%s|row named without the emptiness test: %s" % (fn.replace("mpq_", ""), show(c[3][1])[:30] if len(c[3]) > 1 else "?"), fn, short_loc(c[4]),
+                                            "%s names a row but is not dominated by a test of the row's length: for a row that became empty (its only column "
+                                            "was deleted) the ROWS section leaves the row out while this record still refers to it - the reader rejects the file" % show(c)[:80]))
+    res.counts["row_naming_emissions"] = n
+    res.counts["row_length_tests"] = len(tests)
+    res.floor("row-naming emissions in the MPS writer", n, 3)
+    return res
